@@ -474,4 +474,8 @@ R.add('L8.7', l87, [dict(fragment=False), dict(fragment=True)], replay=replay_l8
               'a never-received message older than the window is not flagged duplicate'],
       bounds='all 65535 window positions, all 2^256 window contents, offsets -32767..32767; payload <= 100 opaque bytes')
 
+for _lid in ['L8.1', 'L8.1s', 'L8.1c', 'L8.2', 'L8.3t']:
+    if _lid in R.lemmas:
+        R.lemmas[_lid].api = True
+
 get_harness = R.get_harness
